@@ -1,10 +1,14 @@
 import FstVerif.Proofs.Merge
+import FstVerif.Proofs.Sched
 /-
 C19 — unsorted CLI builds are independent of batching, file-descriptor limit
-and scheduling. PARTIAL: the theorem is about the data flow of merge.rs
-(Model/Merge.lean) with the scheduler as an adversarial permutation of each
-generation's results; OS threads, channels and temp files are not modelled and
-are exercised only by running the real binary (./check, seeded delays).
+and scheduling. PARTIAL: the theorems are about the data flow of merge.rs
+(Model/Merge.lean) under every permutation of each generation's results, and
+about a transition-system model of the Sorters thread/channel protocol
+(Model/Sched.lean: every interleaving of hand-offs, work and result returns).
+The OS scheduler, crossbeam's implementation of the channels and the temp files
+are not modelled; they are exercised by running the real binary (./check,
+seeded delays) whose traces are checked against the protocol model's predicate.
 Statements here; proofs in Proofs/Merge.lean (with the union specification
 from Proofs/Ops.lean).
 -/
@@ -37,5 +41,41 @@ theorem C19_op_comm (m : MergeMode) (x y : Nat) : m.op x y = m.op y x := op_comm
 theorem C19_op_assoc (m : MergeMode) (x y z : Nat) : m.op (m.op x y) z = m.op x (m.op y z) := op_assoc m x y z
 
 example : kvBatch .sum [([97], 1), ([97], 2), ([98], 5), ([97], 1)] = [([97], 4), ([98], 5)] := by decide
+
+
+/-! ### the thread / channel protocol of `Sorters` (Model/Sched.lean) — every interleaving
+
+`C19_result` takes the order in which a generation's results come back as an arbitrary
+permutation. The theorems below derive that from a transition-system model of the two
+rendezvous channels and the worker loop: whichever worker takes whichever batch, and in
+whichever order the workers hand back their vectors. -/
+
+/-- whatever the interleaving, when `Sorters::results` returns, every batch's result is there exactly once -/
+theorem C19_sorters_perm {threads total : Nat} {s : Sched.St}
+    (h : Sched.Reachable threads total s) (ht : s.terminal = true) :
+    s.collected.Perm (List.range total) := Sched.sorters_perm h ht
+
+/-- no interleaving deadlocks (at least one worker) … -/
+theorem C19_sorters_progress {threads total : Nat} {s : Sched.St} (h1 : 1 ≤ threads)
+    (h : Sched.Reachable threads total s) (ht : s.terminal = false) :
+    ∃ e, (Sched.step s e).isSome := Sched.sorters_progress h1 h ht
+
+/-- … and every interleaving is finite -/
+theorem C19_sorters_terminates {threads total : Nat} {evs : List Sched.Ev} {s : Sched.St}
+    (h : Sched.run (Sched.init threads total) evs = some s) : evs.length ≤ 2 * total + threads + 1 :=
+  Sched.sorters_terminates h
+
+/-- the orders in which results can come back are exactly those with at most `threads`
+ascending runs (this predicate is evaluated on the trace of every real run) -/
+theorem C19_sorters_orders {threads total : Nat} (h1 : 1 ≤ threads) (order : List Nat) :
+    Sched.validOrder threads total order = true ↔
+      ∃ s, Sched.Reachable threads total s ∧ s.terminal = true ∧ s.collected = order :=
+  Sched.sorters_exact h1
+
+/-- the merge result for every number of threads and every interleaving of every generation -/
+theorem C19_threads (m : MergeMode) (batchSize fd : Nat) (hfd : 2 ≤ fd) (threads : Nat)
+    (choice : Nat → Nat → List Sched.Ev) (rows : List (Key × Nat)) :
+    mergeAll m batchSize fd (Sched.schedOf threads choice) rows = some (Spec.merged m rows) :=
+  Sched.C19_threads m batchSize fd hfd threads choice rows
 
 end Fst.Props
